@@ -59,10 +59,11 @@ type CaseA struct {
 	RequireDig  bool   `json:"require_digest"`
 
 	// dimensions added by the generator-domain audit
-	Cache      bool   `json:"cache,omitempty"`       // registry client built with reg.WithCache (as regctl / regsync do)
-	DefaultTag bool   `json:"default_tag,omitempty"` // the tag is the implicit "latest" (reference written without a tag)
-	Platform   bool   `json:"platform,omitempty"`    // reg-get / layout-get: the body is reached through WithManifestPlatform from a wrapper index; DescDig is the wrapper's entry digest
-	Again      string `json:"again,omitempty"`       // "" | get | head | edit-get | edit-head | put-edit-get : a second fetch by the reported digest
+	Cache      bool        `json:"cache,omitempty"`       // registry client built with reg.WithCache (as regctl / regsync do)
+	DefaultTag bool        `json:"default_tag,omitempty"` // the tag is the implicit "latest" (reference written without a tag)
+	Platform   bool        `json:"platform,omitempty"`    // reg-get / layout-get: the body is reached through WithManifestPlatform from a wrapper index; DescDig is the wrapper's entry digest
+	Again      string      `json:"again,omitempty"`       // legacy single-step form of saved cases: get | head | edit-get | edit-head | put-edit-get
+	AgainProg  []AgainStep `json:"again_prog,omitempty"`  // program on the same client after a successful registry fetch
 }
 
 var digModes = []string{"absent", "absent", "absent", "ok256", "ok256", "ok512", "bad256", "bad512", "full256", "full512", "malformed"}
@@ -111,7 +112,7 @@ func genA(t *rapid.T) CaseA {
 	c.Cache = rapid.Bool().Draw(t, "cache")
 	c.DefaultTag = rapid.IntRange(0, 3).Draw(t, "default_tag") == 3
 	c.Platform = rapid.IntRange(0, 3).Draw(t, "platform") == 3
-	c.Again = rapid.SampledFrom([]string{"", "", "get", "head", "edit-get", "edit-get", "edit-head", "put-edit-get"}).Draw(t, "again")
+	c.AgainProg = genAgain(t)
 	// normalise what an entry cannot express
 	if c.Entry != "reg-get" && c.Entry != "layout-get" && c.Entry != "layout-head" {
 		c.Platform = false
@@ -887,19 +888,25 @@ func checkA(c CaseA, ev *evid.Collector) []*evid.Violation {
 	return vs
 }
 
-// edit changes the caller's copy of a fetched manifest through a setter. It
-// reports whether the serialisation really changed.
-func editManifest(m manifest.Manifest, before snap) bool {
+// editManifest changes a manifest the caller holds through a setter (val makes
+// repeated edits of one object distinct). It reports whether the serialisation
+// really changed.
+func editManifest(m manifest.Manifest, val string) bool {
+	before, err := m.RawBody()
+	if err != nil || !m.IsSet() {
+		return false
+	}
+	before = append([]byte{}, before...)
 	if ma, ok := m.(manifest.Annotator); ok {
-		if ma.SetAnnotation("org.example.c02-audit", "edited") != nil {
+		if ma.SetAnnotation("org.example.c02-audit", val) != nil {
 			return false
 		}
-	} else if before.MT == mtDocker1 {
+	} else if m.GetDescriptor().MediaType == mtDocker1 {
 		var mm map[string]json.RawMessage
-		if json.Unmarshal(before.Raw, &mm) != nil || mm == nil {
+		if json.Unmarshal(before, &mm) != nil || mm == nil {
 			return false // (a body such as "null" decodes to no object)
 		}
-		mm["tag"] = json.RawMessage(`"c02-audit-edited"`)
+		mm["tag"] = json.RawMessage(`"c02-audit-` + val + `"`)
 		doc, err := json.Marshal(mm)
 		if err != nil {
 			return false
@@ -912,15 +919,62 @@ func editManifest(m manifest.Manifest, before snap) bool {
 		return false
 	}
 	after, err := m.RawBody()
-	return err == nil && !bytes.Equal(after, before.Raw)
+	return err == nil && !bytes.Equal(after, before)
 }
 
-// again: whatever the client hands out for "<repo>@<digest>" afterwards must
-// still be bytes that hash to that digest - also when the client keeps a cache
-// (reg.WithCache, as regctl and regsync configure it) and the caller has edited
-// the manifest it was given, or has pushed it and edited it afterwards.
+// AgainStep is one step of the program that follows a successful registry fetch
+// on the same client.
+type AgainStep struct {
+	Op  string `json:"op"`            // get-tag | get-digest | head-digest | put | edit
+	Of  int    `json:"of,omitempty"`  // put / edit: which earlier result, counted back from the most recent (0 = the latest)
+	Tgt bool   `json:"tgt,omitempty"` // get / head: the repository ManifestPut pushes to instead of the source
+}
+
+var againOps = []string{"get-digest", "get-digest", "get-digest", "head-digest", "head-digest", "edit", "edit", "edit", "put", "get-tag"}
+
+func genAgain(t *rapid.T) []AgainStep {
+	if rapid.IntRange(0, 3).Draw(t, "again_none") == 0 {
+		return nil
+	}
+	n := rapid.IntRange(2, 5).Draw(t, "again_n")
+	prog := make([]AgainStep, n)
+	for i := range prog {
+		prog[i] = AgainStep{Op: rapid.SampledFrom(againOps).Draw(t, "again_op"), Of: rapid.IntRange(0, 3).Draw(t, "again_of"),
+			Tgt: rapid.IntRange(0, 2).Draw(t, "again_tgt") == 2}
+	}
+	return prog
+}
+
+// legacyAgain translates the single-step form of earlier saved cases.
+func legacyAgain(a string) []AgainStep {
+	switch a {
+	case "get":
+		return []AgainStep{{Op: "get-digest"}}
+	case "head":
+		return []AgainStep{{Op: "head-digest"}}
+	case "edit-get":
+		return []AgainStep{{Op: "edit"}, {Op: "get-digest"}}
+	case "edit-head":
+		return []AgainStep{{Op: "edit"}, {Op: "head-digest"}}
+	case "put-edit-get":
+		return []AgainStep{{Op: "put"}, {Op: "edit"}, {Op: "get-digest", Tgt: true}}
+	}
+	return nil
+}
+
+// again interprets a short program on the client that performed the fetch:
+// further gets by tag / by the digest D of the fetched bytes, heads by D, puts,
+// and edits (through a setter) of ANY manifest an earlier step handed out -
+// including one that was served from the client's cache. Whatever a get or head
+// returns for "<repo>@D" must be bytes that hash to D, and must never be an
+// object that a step has edited; with reg.WithCache (regctl, regsync) that is a
+// statement about what the cache stores and what a cache hit hands out.
 func (c *CaseA) again(f fetched, m manifest.Manifest, s snap, ev *evid.Collector) []*evid.Violation {
-	if c.Again == "" || f.rc == nil || f.model == nil {
+	prog := c.AgainProg
+	if len(prog) == 0 {
+		prog = legacyAgain(c.Again)
+	}
+	if len(prog) == 0 || f.rc == nil || f.model == nil {
 		return nil
 	}
 	alg, ok := digestAlg(s.Digest)
@@ -929,55 +983,105 @@ func (c *CaseA) again(f fetched, m manifest.Manifest, s snap, ev *evid.Collector
 	}
 	ctx := context.Background()
 	cacheLbl := map[bool]string{true: "cache", false: "nocache"}[c.Cache]
-	base := srcHost + "/" + srcRepo
-	edited := false
-	switch c.Again {
-	case "edit-get", "edit-head":
-		edited = editManifest(m, s)
-	case "put-edit-get":
-		r, _ := mkRef(tgtHost+"/"+tgtRepo, true, "")
-		if err := f.rc.ManifestPut(ctx, r, m); err != nil {
-			ev.Class("again:" + c.Again + ":put-failed")
-			return nil
+	type result struct {
+		m      manifest.Manifest
+		step   int // -1 = the fetch under test
+		edited bool
+		cached bool // no request was sent for it
+	}
+	results := []*result{{m: m, step: -1}}
+	pick := func(of int) *result { return results[len(results)-1-of%len(results)] }
+	var trace []string
+	for i, st := range prog {
+		base := srcHost + "/" + srcRepo
+		if st.Tgt {
+			base = tgtHost + "/" + tgtRepo
 		}
-		edited = editManifest(m, s)
-		base = tgtHost + "/" + tgtRepo
-	}
-	r, _ := mkRef(base, false, s.Digest)
-	var m2 manifest.Manifest
-	var err error
-	if c.Again == "head" || c.Again == "edit-head" {
-		m2, err = f.rc.ManifestHead(ctx, r)
-	} else {
-		m2, err = f.rc.ManifestGet(ctx, r)
-	}
-	lbl := "again:" + c.Again + ":" + cacheLbl
-	if !edited && strings.Contains(c.Again, "edit") {
-		lbl += ":no-edit-possible"
-	}
-	if err != nil || m2 == nil {
-		ev.Class(lbl + ":error")
-		return nil
-	}
-	if !m2.IsSet() {
-		ev.Class(lbl + ":unset")
-		if d := m2.GetDescriptor().Digest.String(); d != "" && d != s.Digest {
-			return []*evid.Violation{evid.V("refetch-head-reports-other-digest:"+c.Again, "ManifestHead(%s) reports digest %s", r.CommonName(), d)}
+		switch st.Op {
+		case "edit":
+			r := pick(st.Of)
+			if editManifest(r.m, fmt.Sprintf("edited-%d", i)) {
+				r.edited = true
+				// every result that is this very object is edited with it
+				for _, o := range results {
+					if o.m == r.m {
+						o.edited = true
+					}
+				}
+				trace = append(trace, fmt.Sprintf("edit(result of step %d)", r.step))
+				ev.Class("again-op:edit:" + map[bool]string{true: "of-cache-served", false: "of-fetched"}[r.cached])
+			} else {
+				trace = append(trace, "edit(not possible)")
+				ev.Class("again-op:edit:not-possible")
+			}
+		case "put":
+			r := pick(st.Of)
+			pr, _ := mkRef(tgtHost+"/"+tgtRepo, true, "")
+			err := f.rc.ManifestPut(ctx, pr, r.m)
+			trace = append(trace, fmt.Sprintf("put(result of step %d)->%v", r.step, err == nil))
+			ev.Class("again-op:put:" + map[bool]string{true: "ok", false: "error"}[err == nil])
+		case "get-tag", "get-digest", "head-digest":
+			var rr ref.Ref
+			if st.Op == "get-tag" {
+				rr, _ = mkRef(base, true, "")
+			} else {
+				rr, _ = mkRef(base, false, s.Digest)
+			}
+			before := f.model.Requests()
+			var m2 manifest.Manifest
+			var err error
+			if st.Op == "head-digest" {
+				m2, err = f.rc.ManifestHead(ctx, rr)
+			} else {
+				m2, err = f.rc.ManifestGet(ctx, rr)
+			}
+			cached := f.model.Requests() == before
+			trace = append(trace, fmt.Sprintf("%s(%s)%s", st.Op, map[bool]string{true: "tgt", false: "src"}[st.Tgt], map[bool]string{true: "[no request]", false: ""}[cached]))
+			lbl := "again-op:" + st.Op + ":" + cacheLbl
+			if err != nil || m2 == nil {
+				ev.Class(lbl + ":error")
+				continue
+			}
+			if cached {
+				lbl += ":cache-hit"
+			}
+			// (b) never an object a step has edited
+			for _, o := range results {
+				if o.m == m2 && o.edited {
+					return []*evid.Violation{evid.V("reg-cache-returns-caller-edited-manifest", "client built with reg.WithCache=%v; after %s of %s, step %d %s returned the very object that the result of step %d is and that the caller has edited (it now reports digest %s, the reference names %s; request sent: %v)",
+						c.Cache, c.Entry, strings.Join(trace, ", "), i, rr.CommonName(), o.step, m2.GetDescriptor().Digest, s.Digest, !cached)}
+				}
+			}
+			res := &result{m: m2, step: i, cached: cached}
+			for _, o := range results {
+				if o.m == m2 {
+					res.edited = o.edited
+				}
+			}
+			results = append(results, res)
+			if !m2.IsSet() {
+				ev.Class(lbl + ":unset")
+				if d := m2.GetDescriptor().Digest.String(); st.Op != "get-tag" && d != "" && d != s.Digest {
+					return []*evid.Violation{evid.V("refetch-head-reports-other-digest", "after %s: ManifestHead(%s) reports digest %s", strings.Join(trace, ", "), rr.CommonName(), d)}
+				}
+				continue
+			}
+			ev.Class(lbl + ":set")
+			// (a) the bytes hash to the digest in the reference (the registry serves the same bytes for the tag)
+			s2 := observe(m2)
+			doc, ok, _ := named(s2.MT, s2.Raw)
+			if !ok {
+				continue
+			}
+			if got := hashOf(alg, doc); got != s.Digest || (st.Op != "get-tag" && s2.Digest != s.Digest) {
+				sig := "refetch-returns-other-bytes:" + st.Op + ":" + cacheLbl
+				if c.Cache && cached {
+					sig = "reg-cache-returns-caller-edited-manifest"
+				}
+				return []*evid.Violation{evid.V(sig, "client built with reg.WithCache=%v; after %s of %s, step %d %s returned a manifest that reports %s and whose bytes hash to %s, the reference names %s (request sent: %v): %s",
+					c.Cache, c.Entry, strings.Join(trace, ", "), i, rr.CommonName(), s2.Digest, got, s.Digest, !cached, clip(s2.Raw))}
+			}
 		}
-		return nil
-	}
-	ev.Class(lbl + ":set")
-	s2 := observe(m2)
-	doc, ok, _ := named(s2.MT, s2.Raw)
-	if !ok {
-		return nil
-	}
-	if got := hashOf(alg, doc); got != s.Digest || s2.Digest != s.Digest {
-		cur, _ := m.RawBody()
-		if c.Cache && edited && bytes.Equal(cur, s2.Raw) {
-			return []*evid.Violation{evid.V("reg-cache-returns-caller-edited-manifest", "client built with reg.WithCache; %s of %s: the manifest handed out for %s is the object an earlier call returned, which the caller has meanwhile edited: it reports digest %s and its bytes hash to %s (no request was sent): %s", c.Again, c.Entry, r.CommonName(), s2.Digest, got, clip(s2.Raw))}
-		}
-		return []*evid.Violation{evid.V("refetch-by-digest-returns-other-bytes:"+c.Again+":"+cacheLbl, "%s for %s returned a manifest that reports %s and whose bytes hash to %s: %s", c.Again, r.CommonName(), s2.Digest, got, clip(s2.Raw))}
 	}
 	return nil
 }
